@@ -78,12 +78,21 @@ HashOK(r) ==
     /\ r.visited = r.size2 /\ r.once
     /\ r.cleared = r.size2 /\ r.clronce /\ r.size3 = 0 /\ r.size4 = 5
 
+\* C11 on arrays of 3 000 - 200 000 records (key, id): ordered, a permutation of the input (identities distinct, each
+\* key where its record went), nothing outside the array and the scratch element touched
+SortOK(r) ==
+    /\ r.out = "ok" /\ r.priv /\ r.guards
+    /\ Len(r.before) = r.n /\ Len(r.ids) = r.n
+    /\ Distinct(r.ids) /\ \A i \in 1..r.n : r.ids[i] \in 1..r.n
+    /\ \A i \in 1..(r.n - 1) : r.before[r.ids[i]] <= r.before[r.ids[i + 1]]
+
 BigOK(r) == CASE r.op = "heapdrain" -> HeapOK(r)
               [] r.op \in {"slistsort", "dlistsort"} -> ListOK(r)
               [] r.op = "rbbig" -> TreeOK(r, TRUE)
               [] r.op = "bstbig" -> TreeOK(r, FALSE)
               [] r.op = "mapbig" -> MapOK(r)
               [] r.op = "hashbig" -> HashOK(r)
+              [] r.op = "sortbig" -> SortOK(r)
               [] OTHER -> FALSE
 VARIABLE i
 TInit == i = 1
